@@ -112,7 +112,6 @@ class ThreadWorker(base.Worker):
         fs.add_done_callback(self.finish_request)
 
     def enqueue_req(self, conn):
-        conn.init()
         # submit the connection to a worker
         fs = self.tpool.submit(self.handle, conn)
         self._wrap_future(fs, conn)
@@ -274,6 +273,9 @@ class ThreadWorker(base.Worker):
         keepalive = False
         req = None
         try:
+            # wrapping the socket may run the TLS handshake: do it here,
+            # where its failure only concerns this connection
+            conn.init()
             req = next(conn.parser)
             if not req:
                 return (False, conn)
